@@ -736,6 +736,33 @@ fn gen_c06(rng: &mut Rng, tier: &str, lines: &mut Vec<String>) {
             }
         }
     }
+    // --- image sizes whose big-endian header words read SMALLER than the file when byte-swapped (total size exactly
+    // 0x00020100 / 0x00030100 / 0x00030200; data size 0x00020100; 256 labels in a > 64 KiB file), with little-endian
+    // controls: one 3-byte key (4-byte name pool) and one long message of the tuned length.
+    // total = 0x20 + data + 8 * labels + name pool = data + 0x2C
+    {
+        let fill = |len: usize| -> String { (0..len).map(|i| (b'a' + (i % 23) as u8) as char).collect() };
+        let mut sized = |lines: &mut Vec<String>, n: &mut usize, f: &str, e: &str, data: usize| {
+            // legacy: data = pad4(len + 1); UTF-16: data = 4 (title "t") + 2 * units + 2
+            let m = if f == "S" { fill(data - 1) } else { fill((data - 6) / 2) };
+            lines.push(rt_line(n, f, e, "t", &[(s("key"), m)]));
+        };
+        let totals: Vec<usize> = if thorough { vec![0x20100, 0x30100, 0x30200] } else { vec![0x20100] };
+        for &total in &totals {
+            for f in ["S", "U"] {
+                sized(lines, &mut n, f, "B", total - 0x2C);
+                sized(lines, &mut n, f, "L", total - 0x2C);
+            }
+        }
+        if thorough {
+            for f in ["S", "U"] {
+                sized(lines, &mut n, f, "B", 0x20100); // the data-size word
+                let mut entries: Vec<(String, String)> = (0..255).map(|i| (format!("K{:03}", i), fill(i % 5))).collect();
+                entries.push((s("long"), fill(70000)));
+                lines.push(rt_line(&mut n, f, "B", "t", &entries)); // label count 0x100 reads 0x10000 swapped
+            }
+        }
+    }
     // --- size thresholds (2^8, 2^15 UTF-16 units = 2^16 bytes, 2^16 Shift-JIS bytes): messages, titles and keys whose
     // encoded length is just below / at / above them, incl. a double-byte character (or a surrogate pair)
     // straddling the boundary, as first / middle / last entry; archives with more than 255 entries.
